@@ -19,6 +19,7 @@ import json, os, re, sys
 
 import translate_ctl
 import translate_export
+import translate_serde
 REPO = os.environ.get("NF_REPO", "/repo")
 SRC = os.path.join(REPO, "src")
 
@@ -29,6 +30,7 @@ class Unrecognised(Exception):
 
 translate_ctl.Unrecognised = Unrecognised
 translate_export.Unrecognised = Unrecognised
+translate_serde.Unrecognised = Unrecognised
 
 
 def read(rel):
@@ -720,6 +722,8 @@ def gen():
     # ---- the V9 / IPFIX exporters, statement by statement (translate_export.py)
     attempt("v9ExportProg", lambda: translate_export.translate(v9, "V9"))
     attempt("ipExportProg", lambda: translate_export.translate(ipf, "IPFix"))
+    # ---- JSON member schema of the derive(Serialize) types (translate_serde.py)
+    attempt("serdeSchema", lambda: translate_serde.translate({"lib": lib, "v9": v9, "ipf": ipf, "dn": dn}))
 
     # ---- protocol tables
     def f_proto():
@@ -993,6 +997,12 @@ def main():
     if old_exp != text_exp:
         with open(dest_exp, "w") as f:
             f.write(text_exp)
+    dest_ser = os.path.join(os.path.dirname(os.path.abspath(dest)), "GeneratedSerde.lean")
+    text_ser = translate_serde.emit_lean(norm["serdeSchema"])
+    old_ser = open(dest_ser).read() if os.path.exists(dest_ser) else None
+    if old_ser != text_ser:
+        with open(dest_ser, "w") as f:
+            f.write(text_ser)
     if os.environ.get("NF_WRITE_SNAPSHOT") == "1" and not problems:
         json.dump(norm, open(snap, "w"), indent=0, sort_keys=True)
     try:
